@@ -474,23 +474,85 @@ class _PosUnknown(Exception):
     pass
 
 
-def _ev_early(t, it, END, keys, a, b):
+def f_inline_cond(f, t):
+    """a condition with the fields of a single-definition aggregate local looked through (range.hi -> search(key).hi)"""
+    if isinstance(t, tuple):
+        if t and t[0] == 'local' and len(t) == 3 and f.single_def(t[2]):
+            it = f.term(f.single_def(t[2]), inline=True)
+            if it[0] == 'call' and str(it[1]).endswith('::search'):
+                return it
+            return t
+        return tuple(f_inline_cond(f, x) for x in t)
+    return t
+
+
+def _replace_term(t, old, new):
+    if t == old:
+        return new
+    if isinstance(t, tuple):
+        return tuple(_replace_term(x, old, new) for x in t)
+    return t
+
+
+def _arg_node(f, r, k):
+    """node of the k-th argument of the search call a return statement returns"""
+    e = f.strip(f.n(r)['ch'][0], casts=True)
+    nd = f.n(e)
+    if nd['c'] == 'InlinedCall' and nd.get('value', ('x',))[0] == 'one':
+        e = f.strip(nd['value'][1], casts=True)
+        nd = f.n(e)
+    return nd['args'][k]
+
+
+def _search_kind_of_start(f, v):
+    """kind of the search a local is defined by: it = std::upper_bound(...), or pos = size_t(std::upper_bound(...) - begin())"""
+    init = f.single_def(v[2]) if v[0] == 'local' and len(v) == 3 else None
+    if not init:
+        return None
+    t = strip_cast(f.term(init, inline=True))
+    while t[0] == 'cast':
+        t = strip_cast(t[2])
+    k = kinds.kind_of_term(t)
+    if k:
+        return k
+    if t[0] == 'op' and len(t) == 4 and t[1] == '-':
+        b = strip_cast(t[3])
+        if b[0] == 'call' and str(b[1]).endswith('::begin') and not b[2]:
+            return kinds.kind_of_term(strip_cast(t[2]))
+    if t[0] == 'call' and t[1] == 'std::distance' and len(t[2]) == 2:
+        b = strip_cast(t[2][0])
+        if b[0] == 'call' and str(b[1]).endswith('::begin') and not b[2]:
+            return kinds.kind_of_term(strip_cast(t[2][1]))
+    return None
+
+
+def _ev_early(t, it, END, keys, a, b, hi0=None):
     """evaluate a condition built from (it == end()), (*it == key) and their negations / comparisons under a = [it == end()],
     b = [*it == key]; *it > key is taken as not b (the data is sorted and everything before it is <= key)"""
     t = strip_cast(t)
     if t[0] == 'un' and t[1] == '!':
-        return not _ev_early(t[2], it, END, keys, a, b)
+        return not _ev_early(t[2], it, END, keys, a, b, hi0)
     if t[0] == 'op' and len(t) == 4 and t[1] in ('&&', '||'):
-        x = _ev_early(t[2], it, END, keys, a, b)
+        x = _ev_early(t[2], it, END, keys, a, b, hi0)
         if t[1] == '&&' and not x:
             return False
         if t[1] == '||' and x:
             return True
-        return _ev_early(t[3], it, END, keys, a, b)
+        return _ev_early(t[3], it, END, keys, a, b, hi0)
     if t[0] == 'op' and len(t) == 4 and t[1] in ('==', '!=', '<', '>', '<=', '>='):
         l, r, o = strip_cast(t[2]), strip_cast(t[3]), t[1]
+        while l[0] == 'cast':
+            l = strip_cast(l[2])
+        while r[0] == 'cast':
+            r = strip_cast(r[2])
         if {l, r} == {it, END} and o in ('==', '!='):
             return a if o == '==' else not a
+        is_size = lambda x: x[0] == 'call' and str(x[1]).endswith(('::size', '::end')) and not x[2]
+        if o in ('==', '!=') and ((l == it and is_size(r)) or (r == it and is_size(l))):
+            return a if o == '==' else not a        # pos == size(): the integer position of end()
+        if hi0 is not None and ((o == '<' and l == it and r == hi0) or (o == '>' and r == it and l == hi0)):
+            # the position found is strictly inside the window that was searched: a greater element exists there, so *it > key
+            return not b
         if r == ('deref', it) and l in keys:
             l, r, o = r, l, {'<': '>', '>': '<', '<=': '>=', '>=': '<=', '==': '==', '!=': '!='}[o]
         if l == ('deref', it) and r in keys:
@@ -499,22 +561,25 @@ def _ev_early(t, it, END, keys, a, b):
 
 
 def _pos(f, t, itv, step, END, depth=0):
-    """Offset of an iterator/integer term relative to the gallop start `it`, as a piecewise-linear form over S (= step) and
-    E (= end() - it):  ('lin', cS, cE, k) | ('min', a, b).  it + x -> x; end() -> E; distance(it, end()) / end() - it -> E;
-    single-definition locals are looked through.  Anything else raises _PosUnknown."""
-    if depth > 12:
+    """Position of an iterator or integer term as a piecewise-linear form over P (the position of the gallop start: the iterator
+    `it`, or the integer `pos` when the search is written on indices), S (= step) and E (= end - start):
+    ('lin', cP, cS, cE, k) | ('min', a, b).  begin() -> 0; it / pos -> P; end() and size() -> P + E; it + x, first + x, x + y,
+    std::distance(a, b) = b - a, std::min; single-definition locals are looked through.  Anything else raises _PosUnknown."""
+    if depth > 14:
         raise _PosUnknown('deep')
     t = strip_cast(t)
     while t[0] == 'cast':
         t = strip_cast(t[2])
     if t == itv:
-        return ('lin', 0, 0, 0)
+        return ('lin', 1, 0, 0, 0)
     if t == step:
-        return ('lin', 1, 0, 0)
-    if t == END:
-        return ('lin', 0, 1, 0)
+        return ('lin', 0, 1, 0, 0)
+    if t == END or (t[0] == 'call' and t[1] in (M + '::end', M + '::size') and not t[2]):
+        return ('lin', 1, 0, 1, 0)
+    if t[0] == 'call' and t[1] == M + '::begin' and not t[2]:
+        return ('lin', 0, 0, 0, 0)
     if t[0] == 'lit' and isinstance(t[1], int):
-        return ('lin', 0, 0, t[1])
+        return ('lin', 0, 0, 0, t[1])
     if t[0] == 'local' and len(t) == 3:
         init = f.single_def(t[2])
         if init:
@@ -527,19 +592,17 @@ def _pos(f, t, itv, step, END, depth=0):
         return ('min', _pos(f, t[2][0], itv, step, END, depth + 1), _pos(f, t[2][1], itv, step, END, depth + 1))
     if t[0] == 'call' and t[1] in ('std::next',) and len(t[2]) in (1, 2):
         a = _pos(f, t[2][0], itv, step, END, depth + 1)
-        b = _pos(f, t[2][1], itv, step, END, depth + 1) if len(t[2]) == 2 else ('lin', 0, 0, 1)
+        b = _pos(f, t[2][1], itv, step, END, depth + 1) if len(t[2]) == 2 else ('lin', 0, 0, 0, 1)
         return _pl_add(a, b)
     if t[0] == 'op' and len(t) == 4 and t[1] in ('+', '-'):
         a, b = _pos(f, t[2], itv, step, END, depth + 1), _pos(f, t[3], itv, step, END, depth + 1)
         return _pl_add(a, b) if t[1] == '+' else _pl_sub(a, b)
-    if t[0] == 'op' and len(t) >= 3 and t[1] in ('+', '-') and len(t) == 4:
-        pass
     raise _PosUnknown(fmt_term(t)[:50])
 
 
 def _pl_add(a, b):
     if a[0] == 'lin' and b[0] == 'lin':
-        return ('lin', a[1] + b[1], a[2] + b[2], a[3] + b[3])
+        return ('lin',) + tuple(x + y for x, y in zip(a[1:], b[1:]))
     if a[0] == 'min' and b[0] == 'lin':
         return ('min', _pl_add(a[1], b), _pl_add(a[2], b))
     if b[0] == 'min' and a[0] == 'lin':
@@ -550,16 +613,21 @@ def _pl_add(a, b):
 def _pl_sub(a, b):
     if b[0] != 'lin':
         raise _PosUnknown('- min')
-    return _pl_add(a, ('lin', -b[1], -b[2], -b[3]))
+    return _pl_add(a, ('lin',) + tuple(-x for x in b[1:]))
+
+
+_P_S = ('lin', 1, 1, 0, 0)       # start + step
+_P_E = ('lin', 1, 0, 1, 0)       # end
+_P_0 = ('lin', 1, 0, 0, 0)       # start
 
 
 def _pl_is_min_S_E(p):
-    return p[0] == 'min' and {p[1], p[2]} == {('lin', 1, 0, 0), ('lin', 0, 1, 0)}
+    return p[0] == 'min' and {p[1], p[2]} == {_P_S, _P_E}
 
 
 def _cmp_is_S_lt_E(f, a, itv, step, END):
-    """True / False / None: is the comparison atom equivalent to S < E (the probed position it + step is inside the data)?
-    (over the integers a <= b is a < b + 1)"""
+    """True / False / None: is the comparison atom equivalent to start + S < end, i.e. S < E (the probed position is inside the
+    data)?  (over the integers a <= b is a < b + 1)"""
     if not (a[0] == 'op' and len(a) == 4 and a[1] in ('<', '<=', '>', '>=', '!=', '==')):
         return None
     try:
@@ -570,14 +638,15 @@ def _cmp_is_S_lt_E(f, a, itv, step, END):
     if d is None or d[0] != 'lin':
         return None
     op = a[1]
-    cS, cE, k = d[1], d[2], d[3]
+    cP, cS, cE, k = d[1], d[2], d[3], d[4]
+    if cP != 0:
+        return None
     if op in ('>', '>='):
         cS, cE, k, op = -cS, -cE, -k, {'>': '<', '>=': '<='}[op]
     if op == '<=':
         k, op = k - 1, '<'
     if op != '<':
         return False if (cS, cE) in ((1, -1), (-1, 1)) else None
-    # cS*S + cE*E + k < 0
     if (cS, cE) == (1, -1):
         return k == 0
     return None
@@ -721,10 +790,29 @@ def rules_c11(ctx):
                 continue        # the value of an inlined helper with several returns: each of them is examined on its own
             rt = strip_cast(f.term(f.n(r)['ch'][0], inline=False))
             k = kinds.kind_of_term(rt)
+            rt0 = rt
+            if not k and rt[0] == 'op' and len(rt) == 4 and rt[1] == '+':
+                # `return first + pos;` on indices: the start is the integer position of the search result
+                for base_, off_ in ((strip_cast(rt[2]), strip_cast(rt[3])), (strip_cast(rt[3]), strip_cast(rt[2]))):
+                    try:
+                        if off_[0] == 'local' and len(off_) == 3 and _search_kind_of_start(f, off_) and _pos(f, base_, off_, ('none',), END) == ('lin', 0, 0, 0, 0):
+                            rt = off_
+                    except _PosUnknown:
+                        pass
             if not k and rt[0] == 'local' and len(rt) == 3 and f.single_def(rt[2]):
                 # `return it;` before the gallop: it = FIRST_GT/FIRST_GE(key) inside the PGM range is the answer when it is end()
                 # or its element differs from key (everything before it is <= key, and a different element at it is greater)
-                k0_ = kinds.kind_of_term(f.term(f.single_def(rt[2]), inline=True))
+                k0_ = _search_kind_of_start(f, rt)
+                hi0_ = None
+                if k0_:
+                    # the end of the window that search ran over, as an integer position (begin() + range.hi -> range.hi)
+                    h_ = strip_cast(k0_[3])
+                    if h_[0] == 'op' and len(h_) == 4 and h_[1] == '+':
+                        hb_, ho_ = strip_cast(h_[2]), strip_cast(h_[3])
+                        if hb_[0] == 'call' and str(hb_[1]).endswith('::begin'):
+                            hi0_ = ho_
+                            while hi0_[0] == 'cast':
+                                hi0_ = strip_cast(hi0_[2])
                 if k0_ and k0_[0] in ('FIRST_GT', 'FIRST_GE') and k0_[1] in (KEY, KEY_outer) and _pgm_range_ok(k0_, k0_[1]):
                     A = ('op', '==', rt, END)
                     dec = None
@@ -738,7 +826,7 @@ def rules_c11(ctx):
                         try:
                             ok_all = True
                             for a_, b_ in ((False, True),):
-                                if _ev_early(strip_cast(t), rt, END, (KEY, KEY_outer), a_, b_) == lab:
+                                if _ev_early(strip_cast(f_inline_cond(f, t)), rt, END, (KEY, KEY_outer), a_, b_, hi0_ if rt is not rt0 else None) == lab:
                                     ok_all = False      # the path is taken with it != end() and *it == key: the run may continue
                             dec = ok_all if dec is None else (dec or ok_all)
                         except _PosUnknown:
@@ -756,8 +844,51 @@ def rules_c11(ctx):
             # window: [it + step/2, min(it + step, end())) with it = FIRST_GT(key) inside the PGM range
             lo, hi = _named(k[2]), _named(k[3])
             itv = k0 = None
+            index_mode = False
             if lo[0] == 'op' and lo[1] == '+' and lo[2][0] in ('local', 'param') and strip_cast(lo[3])[0] == 'op' and strip_cast(lo[3])[1] == '/' and strip_cast(lo[3])[3] == ('lit', 2):
                 itv, step = lo[2], strip_cast(strip_cast(lo[3])[2])
+            if itv is None:
+                # any other spelling of start + step / 2 - in particular on indices: first + (pos + step / 2) with pos the integer
+                # position of the FIRST_GT/FIRST_GE result.  The half step is removed and the rest must be the position of a local
+                # whose definition is such a search.
+                lo_full = _named(f.term(f.n(f.n(r)['ch'][0])['args'][0], inline=True)) if False else lo
+                halves = [x for x in _subs(lo) if isinstance(x, tuple) and len(x) == 4 and x[0] == 'op' and x[1] == '/' and x[3] == ('lit', 2) and strip_cast(x[2])[0] == 'local']
+                if not halves:
+                    # the bounds may be bindings of a helper's pair: look through them
+                    try:
+                        lo2 = strip_cast(f.term(_arg_node(f, r, 0), inline=True))
+                        hi2 = strip_cast(f.term(_arg_node(f, r, 1), inline=True))
+                        # the expansion also replaced the start variable by its defining search: put the variable back
+                        for vid_, d_ in f.defs.items():
+                            v_ = ('local', d_.get('name'), vid_)
+                            if d_.get('param') or not d_.get('init') or _search_kind_of_start(f, v_) is None:
+                                continue
+                            exp_ = f.term(d_['init'], inline=True)
+                            for e_ in (exp_, strip_cast(exp_)):
+                                lo2, hi2 = _replace_term(lo2, e_, v_), _replace_term(hi2, e_, v_)
+                        halves = [x for x in _subs(lo2) if isinstance(x, tuple) and len(x) == 4 and x[0] == 'op' and x[1] == '/' and x[3] == ('lit', 2) and strip_cast(x[2])[0] == 'local']
+                        if halves:
+                            lo, hi = lo2, hi2
+                    except Exception:
+                        halves = []
+                if halves:
+                    step_c = strip_cast(halves[0][2])
+                    lo0 = _replace_term(lo, halves[0], ('lit', 0))
+                    cands = []
+                    for vid_, d_ in f.defs.items():
+                        if d_.get('param') or not d_.get('init') or vid_ == step_c[2]:
+                            continue
+                        v_ = ('local', d_['name'], vid_)
+                        if _search_kind_of_start(f, v_) is None:
+                            continue
+                        try:
+                            if _pos(f, lo0, v_, step_c, END) == _P_0:
+                                cands.append(v_)
+                        except _PosUnknown:
+                            pass
+                    if len(cands) == 1:
+                        itv, step = cands[0], step_c
+                        index_mode = True
             win_ok = False
             start_ok = False
             gal_ok = None
@@ -788,10 +919,10 @@ def rules_c11(ctx):
                 elif hi == ('op', '+', itv, step):
                     hi_ok = False   # after the loop it + step may be past end()
                 else:
-                    # any other spelling: its offset from `it` as a piecewise-linear form over S = step and E = end() - it
+                    # any other spelling: its position as a piecewise-linear form over P (start), S (step) and E (end - start)
                     try:
                         ph = _pos(f, hi, itv, step, END)
-                        if _pl_is_min_S_E(ph) or ph == ('lin', 0, 1, 0):
+                        if _pl_is_min_S_E(ph) or ph == _P_E:
                             hi_ok = True
                         else:
                             hi_ok = False
@@ -802,8 +933,7 @@ def rules_c11(ctx):
                     k0 = starts.get(itv)      # the kind of the argument the caller passes for `it`
                     kk = KEY_outer
                 else:
-                    init = f.single_def(itv[2])
-                    k0 = kinds.kind_of_term(f.term(init, inline=True)) if init else None
+                    k0 = _search_kind_of_start(f, itv)
                     kk = KEY
                 # FIRST_GE is as good a start as FIRST_GT: either way everything before `it` is <= key and *it >= key
                 start_ok = bool(k0) and k0[0] in ('FIRST_GT', 'FIRST_GE') and k0[1] == kk and _pgm_range_ok(k0, kk)
@@ -819,7 +949,17 @@ def rules_c11(ctx):
                         x = strip_cast(x)
                         if x in PROBES:
                             return True
-                        return x[0] == 'index' and strip_cast(x[1]) == itv and strip_cast(x[2]) == step
+                        if x[0] == 'index' and strip_cast(x[1]) == itv and strip_cast(x[2]) == step:
+                            return True
+                        # any element access whose position is start + step: *(first + (pos + step)), first[pos + step]
+                        try:
+                            if x[0] == 'deref':
+                                return _pos(f, x[1], itv, step, END) == _P_S
+                            if x[0] == 'index':
+                                return _pl_add(_pos(f, x[1], itv, step, END), _pos(f, x[2], itv, step, END)) == _P_S
+                        except _PosUnknown:
+                            return False
+                        return False
                     pi = next((i for i, a in enumerate(atoms) if a[0] == 'op' and len(a) == 4 and (_is_probe(a[2]) or _is_probe(a[3]))), None)
                     if pi is None:
                         continue
